@@ -1,6 +1,7 @@
 import Marwood.Lemmas.TCall
 import Marwood.Lemmas.CompileTail
 import Marwood.Lemmas.StackWFToy
+import Marwood.Lemmas.ConcreteLawsBpLive
 /-!
 # C04 — calls in tail position run in constant stack space (instruction level)
 
@@ -504,5 +505,49 @@ example : (runK 4 (prepare Toy.idle 4)).map (·.stack.sp) = some 4 ∧
     (runK 400 (prepare Toy.idle 4)).map (·.stack.sp) = some 4 := by decide +kernel
 
 end
+
+/-! ## On the concrete machine: the heap laws are theorems
+
+`Lemmas/ConcreteLaws*.lean`: over the concrete heap (`Vm/ConcreteHeap.lean`: the C03 heap model; lambdas
+are heap cells holding their bytecode) `CodeLaws` is the theorem `concreteLaws ext ecl`, `GcLaws` for the
+real collector the theorem `cgc_gcLaws`, `LiveLaws` the theorem `concreteLiveLaws`. What remains:
+* `CInv s.heap` of the **initial** state — every lambda cell passes the bytecode verifier (the
+  `bytecode-verifier` stream checks it on every real lambda on every run), is not on the free list, has no
+  `IofArgument` source; continuation cells hold WF snapshots; three size facts about the 2-bit map;
+* `ExtCodeLaws ext` — builtins / `eval`'s compiler / VPUSH (parameters of the concrete model) keep that;
+* the machine is `gops ext`: `concreteOps ext` whose `callee` answers `other` when a closure / bare-lambda
+  callee does not designate a lambda cell holding procedure code. In a `CalleeOk` state its `step` is
+  `concreteOps ext`'s (`step_gops`); `CalleeOk` is checked at every executed CALL / TCALL / ENTER by the
+  `bytecode-verifier` stream. (Without it `CodeLaws.callee_closure` / `callee_lambda` are false for
+  `concreteOps`: the entry lambda of an evaluation is a heap cell too.) -/
+
+section Concrete
+open Marwood.Vm.Concrete
+
+/-- WF-stack is invariant under one instruction **of the concrete machine** in a `CalleeOk` state -/
+theorem step_preserves_concrete (ext : ExtOps) (ecl : ExtCodeLaws ext) {s s' : St CHeap} {K : List FDesc}
+    (hok : CalleeOk s) (hw : WFS (concreteLaws ext ecl) s K)
+    (hs : step (concreteOps ext) s = .ok (s', false)) :
+    ∃ K', WFS (concreteLaws ext ecl) s' K' ∧ KStep (gops ext) s s' K K' := by
+  rw [← step_gops ext hok] at hs
+  exact step_preserves hw hs
+
+/-- HALT of the concrete machine in a WF state: `sp` is back at the entry stack pointer 0 -/
+theorem step_halt_concrete (ext : ExtOps) (ecl : ExtCodeLaws ext) {s s' : St CHeap} {K : List FDesc}
+    (hok : CalleeOk s) (hw : WFS (concreteLaws ext ecl) s K)
+    (hs : step (concreteOps ext) s = .ok (s', true)) : s'.stack = s.stack ∧ s.stack.sp = 0 := by
+  rw [← step_gops ext hok] at hs
+  exact step_halt hw hs
+
+/-- **T04.5 on the concrete machine**: loops of tail calls with arbitrary verified bodies run in the same
+    frame slot; `sp` at the loop head depends on the frame's base and the head's arity only.
+    Hypotheses: `ExtCodeLaws ext` and WF-stack of the FIRST state (`CInv` of its heap included). -/
+theorem tail_loop_sp_concrete (ext : ExtOps) (ecl : ExtCodeLaws ext) {D : FDesc} {R : List FDesc} {n : Nat}
+    {s s' : St CHeap} (hl : TailLoop (gops ext) D.base n s s')
+    (hw : WFS (concreteLaws ext ecl) s (D :: R)) (hh : AtHead s D.base) :
+    ∃ arity, s'.stack.cellAt (s'.bp + 1) = .argc arity ∧ s'.stack.sp = D.base + arity + 3 :=
+  tail_loop_sp (concreteLaws ext ecl) hl hw hh
+
+end Concrete
 
 end Marwood.Proofs.C04
